@@ -92,7 +92,8 @@ def setup(cls, case, fem):
         # purely isochoric model: add a volumetric body so that the problem is well posed
         vol = fem.SolidBody(fem.Volumetric(bulk=bulk), fc)
         base = fem.NeoHooke(mu=mu)
-        return mesh, region, fc, [body, vol], body, base, 1.0
+        # (the body that carries the history is the first or the second item of the step)
+        return mesh, region, fc, ([body, vol] if (case["jseed"] + len(case["steps"]) + case["n"][0]) % 2 else [vol, body]), body, base, 1.0
     elif cls == "or-composite":
         # a composite material (a & b) whose FIRST material carries the state variables (documented: "state variables are only
         # considered for the first material")
